@@ -20,7 +20,7 @@ ALLOWED_AXIOMS = {
     "classic", "Classical_Prop.classic",
 }
 FORBIDDEN = re.compile(
-    r"\b(Admitted|admit|Axiom|Axioms|Parameter|Parameters|Conjecture|Hypothesis|Variable)\b|"
+    r"\b(Admitted|admit|Axiom|Axioms|Parameter|Parameters|Conjecture|Conjectures|Hypothesis|Hypotheses|Variable|Variables|Context)\b|"
     r"Unset\s+Guard|bypass_check|type-in-type|impredicative-set|Admit\s+Obligations|"
     r"Unset\s+Universe\s+Checking|Unset\s+Positivity")
 
@@ -81,20 +81,32 @@ def coq_build(targets=None, timeout=1500):
 
 
 def audit_sources():
-    """grep the whole development for declarations that would add to the trusted base."""
+    """grep the whole development for declarations that would add to the trusted base.
+    Variable / Hypothesis / Context are allowed inside a Section only (there they are discharged
+    as ordinary lambda abstractions when the section closes)."""
     bad = []
+    sec_open = re.compile(r"^\s*Section\s+(\w+)\s*\.")
+    sec_close = re.compile(r"^\s*End\s+(\w+)\s*\.")
+    in_section_only = re.compile(r"\b(Variable|Variables|Hypothesis|Hypotheses|Context)\b")
     for root, _, files in os.walk(os.path.join(COQ, "theories")):
         for f in files:
             if not f.endswith(".v"):
                 continue
             p = os.path.join(root, f)
-            txt = open(p).read()
-            # strip comments (nested) before matching
-            txt = strip_coq_comments(txt)
+            txt = strip_coq_comments(open(p).read())
+            sections = []
             for i, line in enumerate(txt.split("\n"), 1):
+                mo = sec_open.match(line)
+                if mo:
+                    sections.append(mo.group(1))
+                mc = sec_close.match(line)
+                if mc and sections and sections[-1] == mc.group(1):
+                    sections.pop()
+                    continue
                 m = FORBIDDEN.search(line)
                 if m:
-                    # Variable/Hypothesis are fine inside a Section; we simply do not use them
+                    if in_section_only.search(m.group(0)) and sections:
+                        continue
                     bad.append("%s:%d: %s" % (os.path.relpath(p, VERIF), i, line.strip()[:120]))
     return bad
 
